@@ -17,8 +17,11 @@ RULE = ("inputs: (i) random Unicode strings <= 64 chars biased to the lexer's ch
         "displayed, or non-termination (re-run alone, 60 s, twice). non-trivial = distinct input yielding >=1 error item or >=2 items")
 
 WS = [" ", "\t", "\n", "\r", " ", " ", " ", " ", "　", "\u000b", "\u000c", "\u0085", " ", " ", " "]
+from c12 import utf8_classes
+UTF8_CLASSES = utf8_classes()
 CLASSES = [list("0123456789"), list(".eE+-"), list("*/^%,"), list("(){}"), list("°'"), list("abcdefgklmnopstuxyzABCJKMNTVW"),
-           list("éπμΩ…ßλ漢🙂\u2212\u00d7\u00f7\u00b2\u00b3\u00b5\uff11\u0661\u2044\u2030"), WS, list("_:\"\\#@!?~`|&;<>=[]$")]
+           list("éπμΩ…ßλ漢🙂\u2212\u00d7\u00f7\u00b2\u00b3\u00b5\uff11\u0661\u2044\u2030") + UTF8_CLASSES, WS, list("_:\"\\#@!?~`|&;<>=[]$")]
+# (UTF8_CLASSES: lowest and highest code point of every possible UTF-8 leading byte, see c12.utf8_classes)
 FUNCS = ["sin", "cos", "round", "floor", "ceil"]
 PUNCT = ["(", ")", ",", "+", "-", "*", "/", "^", "**", "%", "{", "}", "to"]
 
@@ -151,8 +154,24 @@ def gen_tower(rng):
     u = rng.choice(["V", "m/s^99", "N", "m", "s^-99", "kg*m/s^2", "W/m^2", "ohm", "m^99/s", "J^-99", "A", "Pa"])
     if "^" not in u and rng.random() < 0.7:
         u += "^%d" % rng.choice([99, -99, 98, 64, 50])
-    chain = "".join("^%d" % rng.choice([99, 99, 99, 98, 64, 22, 12, 11, 8, 5, 2]) for _ in range(rng.randint(2, 6)))
+    def chain_(lo, hi):
+        return "".join("^%d" % rng.choice([99, 99, 99, 98, 64, 22, 12, 11, 8, 5, 2]) for _ in range(rng.randint(lo, hi)))
+    chain = chain_(2, 6)
     q = "(%s %s)%s" % (rng.choice(["1", "1", "-1", "0", "1.0"]), u, chain)
+    if rng.random() < 0.5:
+        # a product / quotient of towers under one more tower: units whose powers differ by orders of magnitude and in sign
+        # (m^1 next to s^-9801) before the outer chain starts - a limit that is checked on the largest power only, or on the
+        # numerator only, lets the other one run over (seed C11-g)
+        plain = ["m", "s", "kg", "A", "K", "V", "N", "W"]
+        def tq():
+            w = rng.choice(plain)
+            pw = rng.choice(["", "", "^2", "^99", "^-99", "^-1", "^98", "^-64"])
+            return "(1 %s%s)%s" % (w, pw, chain_(0, 2))
+        base = tq()
+        for _ in range(rng.randint(1, 2)):
+            base += " %s %s" % (rng.choice("*/"), tq())
+        chain = chain_(1, 4)
+        q = "(%s)%s" % (base, chain)
     tail = rng.choice(["", "", " * 1m", " * 1 m", " to m", " / 1 s", " + 1 m", " * (1 %s)%s" % (u, chain), " * 2 A", " to V^2", " * 1 N", " / 3 W"])
     return q + tail
 
